@@ -76,6 +76,11 @@ CHECKS = {
         "note": "Trusted: Lean kernel; yaml.v3 decoding; Documented transcribed from README/docs by hand; listeners/TLS files not exercised.",
         "technique": "Lean 4 proof (rule list vs declarative constraints) + differential correspondence",
     },
+    "C19": {
+        "text": "Lean theorems over a small-step model of the health-check loop, its probe fan-out and any number of concurrent Stop callers, for every interleaving: WaitGroup.Add is never concurrent with a Wait at counter zero (stop_safe: the loop has exited before anyone waits), Stop is never stuck - some goroutine can always step until every Stop has returned (stop_no_deadlock), when a Stop has returned no probe is in flight and none starts later (inv_step/inv_reach), the pool closes what it retains and stays closed (C20 theorems). That the code performs these critical actions in this order (cancel, wait for loop exit, wait for probes, then pool shutdown; only the loop goroutine calls Add; probes are bound to the context) is re-derived from the source on every run (fact shutdown_protocol). Tied to the running code by real balancers with active checks stopped at sampled instants by 1..4 goroutines, observing probes at the transport.",
+        "note": "Trusted: Lean kernel; fair scheduling; http.Server.Shutdown drains in-flight client requests (stdlib; order re-derived as gracefulSequence); implementation runs sample Stop placements on the wall clock, the theorem covers all of them.",
+        "technique": "Lean 4 proof (invariant over all interleavings of a small-step protocol model) + regenerated facts + scenario runs of the real Stop",
+    },
     "C20": {
         "text": "Lean theorems over the pool model: Get never returns a connection idle longer than idle_timeout (takeFresh_spec, get_fresh), a connection handed out is no longer idle in that pool (get_exclusive), every pool holds at most max_idle idle connections after every operation (idle_bounded), Shutdown closes everything retained and afterwards nothing is ever retained again - a late Put closes the connection (shutdown_closes_all, down_forever); every ResponseWriter wrapper passes Hijack on (writer facts regenerated from the source). Tied to the code by differential pool histories with fake connections under the virtual clock, an independent holder/idle bookkeeping oracle, and real WebSocket sessions through 9 plugin chains on real sockets.",
         "note": "Trusted: Lean kernel; sequential pool histories (concurrent Put/Shutdown is exercised under -race in C12); the byte relay of an upgraded connection is httputil.ReverseProxy's (stdlib), validated by the sessions only.",
